@@ -23,7 +23,7 @@ MANIFEST = {
             "frames (restart formats: every non-empty subset of the numbered files pre-existing, and the base name pre-existing) x "
             "{save, open+write} x force_overwrite {False, True} is executed. False must raise and leave every pre-existing "
             "path byte-identical; True must leave exactly what the same call writes into an empty directory (size and "
-            "loaded content; bytes where no timestamp is embedded). Read-only clause: load, load_frame, iterload, "
+            "loaded content; bytes where no timestamp is embedded). Bystander layer: a write to a NEW name (held in a variable / a temporary of the call expression / with allocations between open and write) must leave the working directory, the target directory and a sibling directory untouched. Read-only clause: load, load_frame, iterload, "
             "md.open('r')+read/seek/tell/len, load_topology on every readable format incl. the repository's topology "
             "files leave sha256 unchanged. Exhaustive over the listed axes.",
     "note": "New sibling files created before a refusal (e.g. name.1 written before name.2 clashes) are recorded, not "
